@@ -232,3 +232,22 @@ def unbatch(lines):
         else:
             out.append(l)
     return out
+
+
+def pipe_lines(lines, delay):
+    """the batch history as ONE pipelined submission: `trk new …`, then `trk pipe delay nb (ns (scene n det*)*)*`
+    (only the predict lines; histories with other API calls are not pipelined)"""
+    vis = is_visual(lines)
+    out = [l for l in lines if l.split()[1] == "new"]
+    batches = []
+    for l in lines:
+        t = l.split()
+        if t[1] == "predict":
+            sc = split_predict(t, vis)
+            parts = ["%d" % len(sc)]
+            for s_, dets in sc:
+                parts.append("%d %d" % (s_, len(dets)))
+                parts += [" ".join(d) for d in dets]
+            batches.append(" ".join(parts))
+    out.append("trk pipe %d %d %s" % (delay, len(batches), " ".join(batches)))
+    return out
